@@ -310,8 +310,9 @@ def big_front_items(tier):
         ref = [[i / 8.0, (n - i) / 8.0] for i in range(n)]
         for pick in ([n - 1, n - 2, n - 7], [0, n // 2, n - 1], [n - 1]):
             yield {"ref": ref, "comp": [list(ref[i]) for i in pick], "mode": "subset", "d": None, "kind": "dyadic"}
-            yield {"ref": ref, "comp": [[ref[i][0] + 0.25, ref[i][1] + 0.25] for i in pick], "mode": "shifted", "d": 0.25,
-                   "kind": "dyadic"}
+            # (a few shifted points, not the whole front shifted: no closed form for epsilon, the oracle decides)
+            yield {"ref": ref, "comp": [[ref[i][0] + 0.25, ref[i][1] + 0.25] for i in pick], "mode": "independent",
+                   "d": None, "kind": "dyadic"}
 
 
 CLAUSES = [
